@@ -42,6 +42,8 @@ pub struct Spec {
     pub forced: Vec<(u32, u32)>,
     /// build the reader with from_buf_reader(BufReader::with_capacity(cap, source)) after one fill
     pub via_buf_reader: Option<usize>,
+    /// the source overwrites the unused tail of every slice it is handed with this byte
+    pub scribble: Option<u8>,
     /// the document is embedded: this many bytes of an envelope line come first in the stream and
     /// are consumed (`advance`) before the parser is built on the reader
     pub embedded: Option<usize>,
@@ -49,7 +51,7 @@ pub struct Spec {
 
 impl Spec {
     pub fn oneshot() -> Spec {
-        Spec { grain: Grain::OneShot, chunk: None, fault_at: None, fault_kind: 0, interrupts: 0, line_gated: false, forced: vec![], via_buf_reader: None, embedded: None }
+        Spec { grain: Grain::OneShot, chunk: None, fault_at: None, fault_kind: 0, interrupts: 0, line_gated: false, forced: vec![], via_buf_reader: None, embedded: None, scribble: None }
     }
     pub fn uniform(s: usize, chunk: Option<usize>) -> Spec {
         Spec { grain: Grain::Uniform(s), chunk, ..Spec::oneshot() }
@@ -73,6 +75,10 @@ impl Spec {
         self.via_buf_reader = Some(cap);
         self
     }
+    pub fn scribble(mut self, b: u8) -> Spec {
+        self.scribble = Some(b);
+        self
+    }
     pub fn gated(mut self) -> Spec {
         self.line_gated = true;
         self
@@ -92,6 +98,7 @@ impl Spec {
             "interrupts": self.interrupts,
             "line_gated": self.line_gated,
             "via_buf_reader": self.via_buf_reader,
+            "scribble": self.scribble,
             "embedded": self.embedded,
             "choices": self.forced.iter().map(|(c, n)| json!([c, n])).collect::<Vec<_>>(),
         })
@@ -111,6 +118,7 @@ impl Spec {
             interrupts: v["interrupts"].as_u64().unwrap_or(0) as u32,
             line_gated: v["line_gated"].as_bool().unwrap_or(false),
             via_buf_reader: v["via_buf_reader"].as_u64().map(|c| c as usize),
+            scribble: v["scribble"].as_u64().map(|c| c as u8),
             embedded: v["embedded"].as_u64().map(|c| c as usize),
             forced: v["choices"].as_array().map(|a| a.iter().map(|c| (c[0].as_u64().unwrap() as u32, c[1].as_u64().unwrap() as u32)).collect()).unwrap_or_default(),
         }
@@ -130,6 +138,7 @@ impl Spec {
             if self.interrupts > 0 { format!(", up to {} Interrupted", self.interrupts) } else { String::new() },
             if self.line_gated { ", line gated" } else { "" }
         ) + &self.via_buf_reader.map_or(String::new(), |c| format!(", via from_buf_reader(BufReader of {c} bytes, filled once)"))
+            + &self.scribble.map_or(String::new(), |b| format!(", source scribbles {:?} behind the bytes it delivers", b as char))
             + &self.embedded.map_or(String::new(), |k| format!(", embedded behind {k} envelope bytes that were advanced over before the parser was built"))
     }
 }
@@ -151,10 +160,10 @@ pub fn run_spec(subject: &dyn Subject, input: &[u8], spec: &Spec) -> Execution {
             data.push(b'\n');
         }
         data.extend_from_slice(input);
-        let cfg = SourceCfg::new(&data, spec.grain.clone()).fault_at(spec.fault_at.map(|f| f + k)).fault_kind(spec.fault_kind).interrupts(spec.interrupts);
+        let cfg = SourceCfg::new(&data, spec.grain.clone()).fault_at(spec.fault_at.map(|f| f + k)).fault_kind(spec.fault_kind).interrupts(spec.interrupts).scribble(spec.scribble);
         return crate::subject::execute_embedded(subject, cfg, spec.chunk, spec.forced.clone(), k);
     }
-    let cfg = SourceCfg::new(input, spec.grain.clone()).fault_at(spec.fault_at).fault_kind(spec.fault_kind).interrupts(spec.interrupts).boundaries(boundaries.as_deref());
+    let cfg = SourceCfg::new(input, spec.grain.clone()).fault_at(spec.fault_at).fault_kind(spec.fault_kind).interrupts(spec.interrupts).boundaries(boundaries.as_deref()).scribble(spec.scribble);
     crate::subject::execute_via(subject, cfg, spec.chunk, spec.forced.clone(), spec.via_buf_reader)
 }
 
@@ -306,6 +315,11 @@ pub fn c01_as(property: &str, subjects: &[Box<dyn Subject>], docs: &[Doc], param
                 let spec = Spec::uniform(16, None).via_buf_reader(8);
                 let ex = run_spec(subject, input, &spec);
                 c01_compare(property, subject, input, &reference, &spec, &ex, acc);
+                for (b, s) in [(b'9', 3usize), (b'\n', 1)] {
+                    let spec = Spec::uniform(s, None).scribble(b);
+                    let ex = run_spec(subject, input, &spec);
+                    c01_compare(property, subject, input, &reference, &spec, &ex, acc);
+                }
                 return;
             }
             if input.len() <= params.all_len {
@@ -334,6 +348,14 @@ pub fn c01_as(property: &str, subjects: &[Box<dyn Subject>], docs: &[Doc], param
             // the document embedded behind an envelope that was advanced over before the parser was built
             for (k, s, chunk) in [(12usize, 16usize, None), (5, 2, Some(2usize)), (1, 1, Some(1))] {
                 let spec = Spec::uniform(s, chunk).embedded(k);
+                let ex = run_spec(subject, input, &spec);
+                c01_compare(property, subject, input, &reference, &spec, &ex, acc);
+            }
+            // a source that uses the slice it is handed as scratch space: behind the bytes it reports
+            // it leaves digits / line feeds / blanks / letters (whoever looks beyond the valid window
+            // finds them instead of zeros)
+            for (b, s, chunk) in [(b'9', 1usize, None), (b'9', 3, Some(8usize)), (b'\n', 1, None), (b'\n', 2, Some(3)), (b' ', 1, Some(1)), (b'0', 7, None), (b'a', 1, None), (b'-', 5, Some(16))] {
+                let spec = Spec::uniform(s, chunk).scribble(b);
                 let ex = run_spec(subject, input, &spec);
                 c01_compare(property, subject, input, &reference, &spec, &ex, acc);
             }
